@@ -210,6 +210,23 @@ let c19tls line =
 let n_of_int n = if n = 0 then N0 else Npos (pos_of_int n)
 let int_of_n = function N0 -> 0 | Npos p -> int_of_pos p
 
+(* native-tls acceptor: `timeout(dur, accept(io))` is created inside the async block, i.e. at the FIRST POLL of the future, not in
+   call(): the deadline is first-poll time + handshake_timeout.  Encoded exactly by giving the model's Call the timeout
+   (time between call and first poll) + handshake_timeout; a future that is never polled never times out. *)
+let native_shift (ops : string list) (i : int) (k : int) : int =
+  let rec go j acc = function
+    | [] -> 1_000_000_000
+    | tok :: rest ->
+      if j <= i then go (j + 1) acc rest
+      else begin
+        let kind = tok.[0] and arg = String.sub tok 1 (String.length tok - 1) in
+        let n = try int_of_string arg with _ -> 0 in
+        if kind = 'P' && n = k then acc
+        else if kind = 'A' then go (j + 1) (acc + n) rest
+        else go (j + 1) acc rest
+      end in
+  go 0 0 ops
+
 let c18 line =
   let lim = int_of_string (field_d line "lim" "1") in
   let tr = int_of_string (field_d line "tr" "3000") and to_ = int_of_string (field_d line "to" "3000") in
@@ -222,6 +239,7 @@ let c18 line =
     | Some e -> List.map (function 'P' -> HPending | 'D' -> HDone | 'F' -> HFailed N0 | _ -> HFailed (n_of_int 99))
                   (chars (after key e)) in
   let ops = split '.' (field_d line "ops" "") in
+  let native = field_d line "ov" "o" = "n" in
   let st = ref (init (n_of_int lim)) in
   let out = ref [] in
   List.iteri (fun idx tok ->
@@ -229,7 +247,9 @@ let c18 line =
       let k = try int_of_string arg with _ -> 0 in
       let mop = match kind with
         | 'R' -> Some (PollReady (nat_of_int idx))
-        | 'C' -> Some (Call (nat_of_int k, script k, n_of_int (if conns.(k).[0] = 'r' then tr else to_)))
+        | 'C' -> Some (Call (nat_of_int k, script k,
+                             n_of_int (if conns.(k).[0] = 'r' then tr
+                                       else if native then to_ + native_shift ops idx k else to_)))
         | 'P' -> Some (PollFut (nat_of_int k, nat_of_int idx))
         | 'D' -> Some (DropFut (nat_of_int k))
         | 'A' -> Some (Advance (n_of_int k))
@@ -239,6 +259,14 @@ let c18 line =
       | Some o ->
         let (s', obs) = step !st o in
         st := s';
+        (* native-tls acceptor (ov=n plays the "o" service): its future is an async block whose CounterGuard is a local, released
+           when the block finishes, i.e. inside the poll that returns Ready — the same as AcceptFut::poll followed at once by
+           drop(AcceptFut); a later drop of the finished future changes nothing (DropFut of an unknown id) *)
+        let obs = match o with
+          | PollFut (id, _) when native && conns.(k).[0] = 'o'
+                                 && List.exists (function ObsPoll (_, Ready _) -> true | _ -> false) obs ->
+            let (s2, obs2) = step !st (DropFut id) in st := s2; obs @ obs2
+          | _ -> obs in
         let wakes = List.sort compare (List.filter_map (function ObsWake w -> Some (int_of_nat w) | _ -> None) obs) in
         let wakes = List.sort_uniq compare wakes in
         let misuse = List.exists (function ObsMisuse _ -> true | _ -> false) obs in
@@ -276,16 +304,28 @@ let c18coq line =
     | None -> []
     | Some e -> List.map (function 'P' -> HPending | 'D' -> HDone | 'F' -> HFailed N0 | _ -> HFailed (n_of_int 99))
                   (chars (after key e)) in
+  let native = field_d line "ov" "o" = "n" in
+  let optoks = split '.' (field_d line "ops" "") in
+  let cst = ref (init (n_of_int lim)) in
   let ops = List.concat (List.mapi (fun idx tok ->
       let kind = tok.[0] and arg = String.sub tok 1 (String.length tok - 1) in
       let k = try int_of_string arg with _ -> 0 in
-      match kind with
+      let l = match kind with
       | 'R' -> [PollReady (nat_of_int idx)]
-      | 'C' -> [Call (nat_of_int k, script k, n_of_int (if conns.(k).[0] = 'r' then tr else to_))]
+      | 'C' -> [Call (nat_of_int k, script k,
+                      n_of_int (if conns.(k).[0] = 'r' then tr
+                                else if native then to_ + native_shift optoks idx k else to_))]
       | 'P' -> [PollFut (nat_of_int k, nat_of_int idx)]
       | 'D' -> [DropFut (nat_of_int k)]
       | 'A' -> [Advance (n_of_int k)]
-      | _ -> []) (split '.' (field_d line "ops" ""))) in
+      | _ -> [] in
+      List.concat_map (fun o ->
+        let (s', obs) = step !cst o in cst := s';
+        match o with
+        | PollFut (id, _) when native && conns.(k).[0] = 'o'
+                               && List.exists (function ObsPoll (_, Ready _) -> true | _ -> false) obs ->
+          let (s2, _) = step !cst (DropFut id) in cst := s2; [o; DropFut id]
+        | _ -> [o]) l) (split '.' (field_d line "ops" ""))) in
   let nat n = Printf.sprintf "%d%%nat" (int_of_nat n) and nn n = Printf.sprintf "%d%%N" (int_of_n n) in
   let ans = function HPending -> "HPending" | HDone -> "HDone" | HFailed e -> Printf.sprintf "(HFailed %s)" (nn e) in
   let lst f l = "[" ^ String.concat "; " (List.map f l) ^ "]" in
